@@ -137,6 +137,101 @@ C["C02"] = {
  "trusted_base": ENGINE_TB + ["refMatch; last-writer-wins map model in the harness"],
 }
 
+SRV_STUBS = ["net.Conn: scripted connection (writes recorded, reads served from a script, Close/SetDeadline recorded)", "time.Now: one symbolic second per path (the clock does not advance inside a harness)", "log/slog: no-ops", "sync.Mutex/RWMutex: lock tracker; sync/atomic: plain loads/stores", "sync.Pool: LIFO reuse", "context.WithCancel: flag + closed channel", "xid: fresh concrete ids", "WriteLoop replaced by the harness draining the outbound channel through the real WritePacket"]
+SRV_TB = ENGINE_TB + ["strict reference wire decoder harness/root/wire.go (written from the MQTT 3.1.1/5.0 specs)"]
+
+# ---------------- C07 ----------------
+C["C07"] = {
+ "pkgs": ["."],
+ "technique": "bounded symbolic execution of the real processPacket and everything below it for one solver-chosen request from a symbolic session pre-state; transcript parsed by a reference decoder; assertions as SMT queries",
+ "quick": {"harnesses": [H("VerifC07Request", VER=5), H("VerifC07Request", VER=4), H("VerifC07Request", VER=3)], "budget_s": 300, "witnesses": 8,
+   "bounds": "one request per run: PUBLISH q1/q2 (topic in {a, $SYS/x, b/c}), PUBREL, SUBSCRIBE/UNSUBSCRIBE with 1-2 filters from fixed sets incl. invalid, shared and unsubscribed ones, PINGREQ; 16-bit packet id symbolic; ACL verdict for topic a symbolic; inbound QoS 2 state present or not"},
+ "thorough": {"harnesses": [H("VerifC07Request", VER=5), H("VerifC07Request", VER=4), H("VerifC07Request", VER=3)], "budget_s": 900, "witnesses": 24, "bounds": "as quick"},
+ "outside_bounds": ["sequences of requests (the step is from a symbolic pre-state, one-step)", "requests re-using an id that is in use by another exchange (not well-formed)", "hooks that reject packets"],
+ "stubs": SRV_STUBS, "trusted_base": SRV_TB,
+}
+# ---------------- C37 ----------------
+C["C37"] = {
+ "pkgs": ["."],
+ "technique": "symbolic execution of refreshDeadline/Read with the keepalive as a 16-bit solver variable; deadline arithmetic (x 1e9, x3/2) decided bit-precisely on 64-bit vectors",
+ "quick": {"harnesses": [H("VerifC37Deadline"), H("VerifC37Rearm")], "budget_s": 120, "witnesses": 6,
+   "bounds": "keepalive: all 65536 values symbolically; re-arming: 0..2 packets read"},
+ "thorough": {"harnesses": [H("VerifC37Deadline"), H("VerifC37Rearm")], "budget_s": 300, "witnesses": 12, "bounds": "as quick"},
+ "outside_bounds": ["that the runtime's net.Conn honours SetDeadline", "sub-second rounding"],
+ "stubs": SRV_STUBS + ["time.Time: (seconds, extra nanoseconds) pair; Add/Sub exact"], "trusted_base": SRV_TB,
+}
+# ---------------- C10 ----------------
+C["C10"] = {
+ "pkgs": ["."],
+ "technique": "one-step inductive symbolic execution: NextPacketID from an arbitrary in-flight state; handlers with a symbolic client packet id against a broker-created outbound record",
+ "quick": {"harnesses": [H("VerifC10Alloc", M=3), H("VerifC10Cross", VER=5), H("VerifC10Cross", VER=4), H("VerifC10Reverse")], "budget_s": 200, "witnesses": 8,
+   "bounds": "allocation: maximumPacketID = 3, every subset of ids in use, every cursor; cross: one outbound QoS 1/2 record, client PUBLISH/PUBREL/SUBSCRIBE/UNSUBSCRIBE with any 16-bit id; reverse: PUBACK/PUBREC/PUBCOMP against an open inbound QoS 2 exchange"},
+ "thorough": {"harnesses": [H("VerifC10Alloc", M=7), H("VerifC10Cross", VER=5), H("VerifC10Cross", VER=4), H("VerifC10Reverse")], "budget_s": 600, "witnesses": 16, "bounds": "as quick with maximumPacketID = 7"},
+ "outside_bounds": ["the real identifier limit 65535 (differs from M only in the constant)", "more than one outbound record in the cross-contamination step"],
+ "stubs": SRV_STUBS, "trusted_base": SRV_TB,
+}
+# ---------------- C11 ----------------
+C["C11"] = {
+ "pkgs": ["."],
+ "technique": "bounded symbolic execution of solver-chosen histories through the real handlers; the oracle counts unacknowledged messages on the wire (reference decoder), independent of the broker's quota counters",
+ "quick": {"harnesses": [H("VerifC11Flow", STEPS=3)], "budget_s": 300, "witnesses": 8, "perm_limit": 1,
+   "bounds": "client Receive Maximum 1..2, server Receive Maximum 1..2, every history of 3 steps among {broker delivers q1/q2, client acknowledges, client publishes q0/q1/q2 within the limit, client PUBREL, spurious PUBCOMP}"},
+ "thorough": {"harnesses": [H("VerifC11Flow", STEPS=5)], "budget_s": 3000, "witnesses": 16, "perm_limit": 1, "bounds": "as quick with histories of 5 steps"},
+ "outside_bounds": ["longer histories, Receive Maximum > 2", "map iteration order (perm_limit 1: the harness's own model maps are iterated in insertion order)"],
+ "stubs": SRV_STUBS, "trusted_base": SRV_TB,
+}
+# ---------------- C08 ----------------
+C["C08"] = {
+ "pkgs": ["."],
+ "technique": "bounded symbolic execution of processPublish/processPubrel for 1..3 transmissions of the same QoS 2 PUBLISH, symbolic packet id; subscriber and publisher transcripts parsed by the reference decoder",
+ "quick": {"harnesses": [H("VerifC08Once", VER=5, RETX=2), H("VerifC08Once", VER=4, RETX=2)], "budget_s": 200, "witnesses": 6,
+   "bounds": "1..3 transmissions before PUBREL, any 16-bit id, one subscriber"},
+ "thorough": {"harnesses": [H("VerifC08Once", VER=5, RETX=4), H("VerifC08Once", VER=4, RETX=4)], "budget_s": 600, "witnesses": 12, "bounds": "1..5 transmissions"},
+ "outside_bounds": ["retransmission after a reconnect (the in-flight clone is C09/C14's subject)", "several QoS 2 exchanges interleaved"],
+ "stubs": SRV_STUBS, "trusted_base": SRV_TB,
+}
+
+# ---------------- C04 ----------------
+C["C04"] = {
+ "pkgs": ["."],
+ "technique": "bounded symbolic execution of the real SUBSCRIBE handler, trie merge and publishToClient with symbolic QoS x3, identifiers, RAP and retain; wire output parsed by the reference decoder",
+ "quick": {"harnesses": [H("VerifC04Deliver", VER=5), H("VerifC04Deliver", VER=4)], "budget_s": 300, "witnesses": 8, "perm_limit": 2,
+   "bounds": "server maximum QoS 0..2, publish QoS 0..2, two overlapping subscriptions (a/b, a/+) each present or not with QoS 0..2, identifier in {none,1,2}, Retain As Published, retain flag; all iteration orders of maps with <= 2 entries"},
+ "thorough": {"harnesses": [H("VerifC04Deliver", VER=5), H("VerifC04Deliver", VER=4), H("VerifC04Deliver", VER=3)], "budget_s": 900, "witnesses": 16, "perm_limit": 3, "bounds": "as quick; map orders up to 3 entries"},
+ "outside_bounds": ["more than two overlapping subscriptions", "RAP disagreement between matching subscriptions (the statement speaks of 'the matching subscription'; asserted only when they agree)", "retained-delivery identifiers are asserted in C05's harness"],
+ "stubs": SRV_STUBS, "trusted_base": SRV_TB,
+}
+# ---------------- C05 ----------------
+C["C05"] = {
+ "pkgs": ["."],
+ "technique": "bounded symbolic execution of processPublish->retainMessage and processSubscribe->publishRetainedToClient over solver-chosen publish histories, against a last-writer-wins model",
+ "quick": {"harnesses": [H("VerifC05Retained", H=2)], "budget_s": 300, "witnesses": 8, "perm_limit": 3,
+   "bounds": "2 publishes to two topics (retain flag, empty/non-empty payload symbolic), RetainAvailable 0/1, then SUBSCRIBE a/+ with Retain Handling 0..2, shared or not, first-time or repeated, with or without subscription identifier"},
+ "thorough": {"harnesses": [H("VerifC05Retained", H=4)], "budget_s": 1800, "witnesses": 16, "perm_limit": 3, "bounds": "as quick with 4 publishes"},
+ "outside_bounds": ["more than two retained topics", "message expiry (C25)"],
+ "stubs": SRV_STUBS, "trusted_base": SRV_TB,
+}
+# ---------------- C06 ----------------
+C["C06"] = {
+ "pkgs": ["."],
+ "technique": "bounded symbolic execution of Subscribers/SelectShared/MergeSharedSelected/publishToSubscribers with every iteration order of the (randomised) Go maps as an engine decision",
+ "quick": {"harnesses": [H("VerifC06Groups", N=2)], "budget_s": 300, "witnesses": 8, "perm_limit": 3,
+   "bounds": "1..2 shared subscriptions (client in {c1,c2,c3}, group in {g,h}, filter in {a/b,a/+,a/#}) plus an optional non-shared subscription of c1; topic a/b; every order of maps with <= 3 entries"},
+ "thorough": {"harnesses": [H("VerifC06Groups", N=3)], "budget_s": 2400, "witnesses": 16, "perm_limit": 3, "bounds": "as quick with 1..3 shared subscriptions"},
+ "outside_bounds": ["OnSelectSubscribers hooks (default selection only)", "more than 3 members"],
+ "stubs": SRV_STUBS, "trusted_base": SRV_TB,
+}
+# ---------------- C12 ----------------
+C["C12"] = {
+ "pkgs": ["."],
+ "technique": "bounded symbolic execution of publishToClient deferral, the processPacket deferred-send tail, Inflight.GetAll/NextImmediate and ResendInflightMessages; order read off the wire; map iteration orders as decisions",
+ "quick": {"harnesses": [H("VerifC12Order", MSGS=3), H("VerifC12Order", MSGS=3, WRAP=1), H("VerifC12Resend", MSGS=3), H("VerifC12Resend", MSGS=3, WRAP=1)], "budget_s": 300, "witnesses": 8, "perm_limit": 3,
+   "bounds": "3 QoS 1 messages from one publisher on one topic, client Receive Maximum 1..2, prompt acknowledgements; resend after one reconnect; packet-id cursor near wrap-around (maximum id 3-4); every order of maps with <= 3 entries"},
+ "thorough": {"harnesses": [H("VerifC12Order", MSGS=4), H("VerifC12Order", MSGS=3, WRAP=1), H("VerifC12Resend", MSGS=3), H("VerifC12Resend", MSGS=3, WRAP=1)], "budget_s": 1800, "witnesses": 16, "perm_limit": 3, "bounds": "as quick, 4 messages for the flow-control order"},
+ "outside_bounds": ["clock advancing between messages (one symbolic second per path)", "QoS 2 flows, several publishers"],
+ "stubs": SRV_STUBS, "trusted_base": SRV_TB,
+}
+
 def main():
     os.makedirs(os.path.join(root, "checks"), exist_ok=True)
     for cid, c in C.items():
